@@ -57,6 +57,13 @@ Theorem C09_ins_draw : forall N bs out k, ins_draw N bs = Some (out, k) ->
 Proof. exact ins_draw_spec. Qed.
 Print Assumptions C09_ins_draw.
 
+(* ImportanceFlowProposal.draw_from_flows (whose output draw_final_samples hands to the likelihood): only candidates inside
+   the unit hypercube with a finite log-prior are returned *)
+Theorem C09_draw_from_flows : forall cs,
+  Forall (fun c => (inb c = true /\ is_fin (lp c) = true) /\ In c cs) (ins_from_flows cs).
+Proof. exact ins_from_flows_spec. Qed.
+Print Assumptions C09_draw_from_flows.
+
 (* a flow pool has exactly the requested size when the loop ends *)
 Theorem C09_pool_size : forall sub strict minlq N bs pool k,
   flow_populate sub strict minlq N bs = Done (pool, k) -> length pool = N.
@@ -118,6 +125,23 @@ Theorem C09_radius : forall (ginv : R -> R) (umax u rf : R) (g : list R),
   (norm (radial_point (tg_radius ginv umax u) g) <= rf)%R.
 Proof. exact tg_radius_bounded. Qed.
 Print Assumptions C09_radius.
+
+(* successive populations of one proposal object with radii rs: the k-th population's latent points lie inside the k-th
+   contour, because the sampler is rebuilt for the current radius ... *)
+Theorem C09_radius_each_population : forall (ginv : R -> R) (umax u fuzz : R) (rs : list R) (k : nat) (g : list R),
+  (0 <= sampler_radius rs k)%R -> (0 <= fuzz)%R -> (0 <= umax)%R -> (0 <= u <= 1)%R ->
+  (forall x y, (x <= y)%R -> (ginv x <= ginv y)%R) ->
+  ginv umax = ((sampler_radius rs k * fuzz) * (sampler_radius rs k * fuzz) / 2)%R ->
+  norm g <> 0%R ->
+  (norm (radial_point (tg_radius ginv umax u) g) <= sampler_radius rs k * fuzz)%R.
+Proof. exact radius_each_population. Qed.
+Print Assumptions C09_radius_each_population.
+
+(* ... and the variant that keeps the first population's sampler is refuted (radii 2 then 1: a point at radius 2) *)
+Theorem C09_stale_sampler_refuted : exists (rs : list R) (k : nat) (z : list R),
+  (norm z <= stale_sampler_radius rs k * 1)%R /\ ~ (norm z <= sampler_radius rs k * 1)%R.
+Proof. exact stale_sampler_refuted. Qed.
+Print Assumptions C09_stale_sampler_refuted.
 
 Theorem C09_radius_ppf : forall (ppf : R -> R) (sigma umax u rf : R) (g : list R),
   (0 < sigma)%R -> (u <= umax)%R -> (0 <= ppf u)%R ->
